@@ -425,7 +425,15 @@ def r5(db, rep, arches=ARCHES, rid="R5"):
         rep.analysed(fn)
         cfg = Cfg(body)
         tm = terms_of(db, fn, {})
-        decodes = [i for i, t in mir_calls(body) if last_seg(mir_callee(t) or "") in ("disasm", "decode")]
+        def wraps_decoder(c, depth=0):
+            # a private function of the translator that makes the decoder call on behalf of translate_block
+            b2 = db.mir.get(c) if c.startswith("translator::") and "{closure#" not in c else None
+            if b2 is None or depth > 2:
+                return False
+            return any(last_seg(mir_callee(t2) or "") in ("disasm", "decode") or wraps_decoder(mir_callee(t2) or "", depth + 1)
+                       for _i2, t2 in mir_calls(b2))
+        decodes = [i for i, t in mir_calls(body) if last_seg(mir_callee(t) or "") in ("disasm", "decode") or
+                   wraps_decoder(mir_callee(t) or "")]
         rep.anchor(decodes, "decoder call in %s" % fn)
         # assignments `offset = offset + size`
         incs = []
@@ -511,14 +519,22 @@ def r1(db, rep, runs, rid="R1"):
     for arch in ("x86", "mips", "ppc"):
         body = db.mir[lifters.TB[arch]]
         cfg = Cfg(body)
-        opt = [i for i, t in mir_calls(body) if (mir_callee(t) or "").endswith("Capstone::option")]
+        def detail_sites(fn_, b_):
+            tm_ = terms_of(db, fn_, {})
+            out_ = []
+            for i_, t_ in mir_calls(b_):
+                if (mir_callee(t_) or "").endswith("Capstone::option"):
+                    txt = " ".join(show(tm_.operand(a)) for a in t_["args"])
+                    if "CS_OPT_DETAIL" in txt and "CS_OPT_ON" in txt:
+                        out_.append(i_)
+            return out_
+
+        # the decoder may be set up (and detail switched on) by a private constructor function of the translator
+        setup = {c for c in db.mir.keys() if c.startswith("translator::%s::" % arch) and "{closure#" not in c and
+                 c != lifters.TB[arch] and detail_sites(c, db.mir[c])}
+        opt = detail_sites(lifters.TB[arch], body) + [i for i, t in mir_calls(body) if (mir_callee(t) or "") in setup]
         dis = [i for i, t in mir_calls(body) if last_seg(mir_callee(t) or "") == "disasm"]
-        detail_on = False
-        tmo = terms_of(db, lifters.TB[arch], {})
-        for i in opt:
-            txt = " ".join(show(tmo.operand(a)) for a in body["blocks"][i]["t"]["args"])
-            if "CS_OPT_DETAIL" in txt and "CS_OPT_ON" in txt:
-                detail_on = True
+        detail_on = bool(opt)
         rp.decide(bool(opt) and bool(dis) and detail_on and all(any(cfg.dominates(o, d) for o in opt) for d in dis),
                   "%s|detail_on" % arch, db.where(body), "disassembly can run without CS_OPT_DETAIL having been enabled")
     site_allow = {k: v["reason"] for k, v in reviewed.items()}
